@@ -654,6 +654,8 @@ def run(ctx) -> None:
     check_pointgroup_serialisation(ctx)
     check_reduced_shifts(ctx)
     check_reader_writer_parameters(ctx)
+    check_chunked_blocks(ctx)
+    check_shift_ownership(ctx)
     from ..taint import returning_listing_order
     ot = OrderTaint(load.node, LS.du, extra_sources=returning_listing_order(idx, [SR]))
     for s in ot.sources:
@@ -663,6 +665,144 @@ def run(ctx) -> None:
     r4.check(not sk, "directory listings in load_npz are used order-insensitively", load,
              enclosing(LS.pm, sk[0][0], ast.stmt) if sk else load.node,
              f"load_npz takes `{norm1(sk[0][0], 60)}` positionally from a directory listing" if sk else "")
+
+
+def check_chunked_blocks(ctx) -> None:
+    """R18.8 — the degeneracy header of _hr.dat / _tb.dat is written in chunks of k entries per line; the readers consume lines only
+    until N entries are read.  The writer must therefore emit every entry exactly once and never an empty chunk (an empty line
+    after the block is taken for the first line of the next block).  Decided from the loop header and the slice bounds."""
+    from ..algebra import Rat, to_rat
+    idx = ctx.index
+    r8 = ctx.rule("R18.8", "chunked header blocks: every entry once, no empty chunk", min_instances=2)
+    for rel, name in ((HR, "write_hr_file"), (TB, "write_tb_file")):
+        f0 = idx.function(rel, name)
+        f = inline_private_helpers(idx, f0)
+        S = Sem(idx, f)
+        found = 0
+        for lp in [x for x in ast.walk(f.node) if isinstance(x, ast.For) and isinstance(x.target, ast.Name) and isinstance(x.iter, ast.Call) and call_name(x.iter) == "range"]:
+            i = lp.target.id
+            sls = [x for st in lp.body for x in ast.walk(st) if isinstance(x, ast.Subscript) and isinstance(x.slice, ast.Slice) and x.slice.step is None
+                   and x.slice.lower is not None and x.slice.upper is not None and isinstance(x.value, ast.Name)
+                   and any(isinstance(n, ast.Name) and n.id == i for n in ast.walk(x.slice))]
+            wr = [c for st in lp.body for c in ast.walk(st) if isinstance(c, ast.Call) and isinstance(c.func, ast.Attribute) and c.func.attr == "write"]
+            if len(sls) != 1 or not wr:
+                continue
+            sl = sls[0]
+            at = S.cfg.node(lp)
+            # N = number of entries of the chunked array
+            arr = S.resolve(sl.value, at)
+            ntxt = None
+            if isinstance(arr, ast.Call) and call_name(arr) in ("np.ones", "np.zeros", "np.empty", "np.full", "np.arange") and arr.args:
+                ntxt = norm(arr.args[0])
+            cands = {f"len({sl.value.id})", f"{sl.value.id}.shape[0]", f"{sl.value.id}.size"} | ({ntxt} if ntxt else set())
+
+            def env(x):
+                t = S.rnorm(x, at) if not isinstance(x, ast.Name) or x.id != i else i
+                if t in cands or norm(x) in cands:
+                    return Rat.sym("N")
+                if isinstance(x, ast.Name):
+                    return Rat.sym(x.id)
+                return None
+
+            def rat(e):
+                try:
+                    return to_rat(e, env)
+                except AnalysisError:
+                    return None
+
+            def upper_forms(e):
+                """the upper bound as a list of Rats whose minimum it is"""
+                if isinstance(e, ast.Call) and call_name(e) in ("min", "np.minimum") and len(e.args) == 2:
+                    return [rat(a) for a in e.args]
+                return [rat(e)]
+            found += 1
+            r8.instance(f"{f0.short}: for {i} in {norm1(lp.iter)}: …{norm1(sl)}")
+            I, N = Rat.sym(i), Rat.sym("N")
+            args = lp.iter.args
+            lo, ups = rat(sl.slice.lower), upper_forms(sl.slice.upper)
+            verdict, why = None, ""
+            if lo is None or any(u is None for u in ups):
+                verdict = None
+            elif len(args) == 3 and rat(args[0]) is not None and rat(args[0]).equals(Rat.const(0)) and rat(args[1]) is not None and rat(args[1]).equals(N) \
+                    and rat(args[2]) is not None and rat(args[2]).d.as_const() is not None and rat(args[2]).as_poly().as_const() is not None:
+                k = rat(args[2])
+                ok = lo.equals(I) and any(u.equals(I + k) for u in ups) and all(u.equals(I + k) or u.equals(N) for u in ups)
+                verdict, why = ok, f"`{norm1(sl)}` does not take the entries [{i}, {i}+step) of every step of `{norm1(lp.iter)}`"
+            elif len(args) == 1:
+                # chunks k·i … k·(i+1): the number of chunks must be ceil(N / k)
+                d = None
+                for u in ups:
+                    if u is not None and not u.equals(N):
+                        d = u - lo
+                k = d.as_poly().as_const() if d is not None and d.d.as_const() is not None and d.as_poly().as_const() is not None else None
+                if k is not None and k > 0 and lo.equals(I * Rat.const(k)) and all(u.equals(N) or u.equals(lo + Rat.const(k)) for u in ups):
+                    m = S.resolve(args[0], at)
+                    mt = norm(m).replace(" ", "")
+                    for c_ in sorted(cands, key=len, reverse=True):
+                        mt = mt.replace(c_.replace(" ", ""), "N")
+                    kk = str(int(k))
+                    ceil_forms = {f"(N+{kk}-1)//{kk}", f"(N+{int(k) - 1})//{kk}", f"-(-N//{kk})", f"math.ceil(N/{kk})", f"int(np.ceil(N/{kk}))", f"(N-1)//{kk}+1",
+                                  f"int(math.ceil(N/{kk}))"}
+                    if mt in ceil_forms:
+                        verdict = True
+                    elif mt in (f"N//{kk}+1", f"1+N//{kk}"):
+                        verdict, why = False, (f"`{norm1(lp.iter)}` writes N // {kk} + 1 chunks: when the number of entries is a multiple of {kk} the last "
+                                               f"chunk is empty and an empty line follows the block; the reader stops after N entries and takes that line for the "
+                                               f"first line of the next block")
+                    elif mt == f"N//{kk}":
+                        verdict, why = False, f"`{norm1(lp.iter)}` writes N // {kk} chunks: the last N % {kk} entries are never written"
+            if verdict is None:
+                r8.expect(False, "", f0, lp, f"{f0.qualname}: chunked write `for {i} in {norm1(lp.iter)}` with `{norm1(sl)}` is not in a form whose chunk count can be decided")
+            else:
+                r8.check(verdict, "every entry is written exactly once and no chunk is empty", f0, lp, why)
+        r8.expect(found >= 1, f"{name}: chunked header located", f0, f0.node, f"{f0.qualname}: the chunked degeneracy header (k entries per line) was not found")
+
+
+def check_shift_ownership(ctx) -> None:
+    """R18.9 — the R-vectors a reader leaves on the system carry both centre shifts.  Rvectors.__init__ aliases the right shifts to
+    the left ones only at construction, so (a) an Rvectors object stored as `<system>.rvec` must be constructed with the centres
+    (shifts_left_red=…), and (b) outside class Rvectors the two shift attributes are only ever assigned together."""
+    idx = ctx.index
+    r9 = ctx.rule("R18.9", "R-vectors kept on a system are constructed with the centre shifts; shift attributes change only in pairs", min_instances=8)
+    for f in idx.all_functions():
+        if not f.module.relpath.startswith("wannierberri/"):
+            continue
+        in_rvectors = f.cls is not None and f.cls.name == "Rvectors"
+        # (b)
+        if not in_rvectors:
+            recv: Dict[str, set] = {}
+            node_of: Dict[str, ast.AST] = {}
+            for st in ast.walk(f.node):
+                tgts = st.targets if isinstance(st, ast.Assign) else [st.target] if isinstance(st, (ast.AugAssign, ast.AnnAssign)) else []
+                for t in tgts:
+                    for x in (t.elts if isinstance(t, ast.Tuple) else [t]):
+                        if isinstance(x, ast.Attribute) and x.attr in ("shifts_left_red", "shifts_right_red"):
+                            recv.setdefault(norm(x.value), set()).add(x.attr)
+                            node_of.setdefault(norm(x.value), st)
+            for rc, attrs in recv.items():
+                r9.instance(f"{f.short}: {rc}.{{{', '.join(sorted(attrs))}}} assigned")
+                r9.check(len(attrs) == 2, f"{rc}: both shift attributes are assigned", f, node_of[rc],
+                         f"`{rc}.{sorted(attrs)[0]}` is assigned outside class Rvectors without its partner: the other side keeps the array it was aliased to "
+                         f"at construction, so R + τj − τi is built from stale centres (matrices and bands unchanged, Berry-type quantities wrong)")
+        # (a)
+        if not f.module.relpath.startswith("wannierberri/system/"):
+            continue
+        FS = None
+        for st in ast.walk(f.node):
+            if not (isinstance(st, ast.Assign) and len(st.targets) == 1 and isinstance(st.targets[0], ast.Attribute) and st.targets[0].attr == "rvec"):
+                continue
+            v = st.value
+            if isinstance(v, ast.Name):
+                FS = FS or Sem(idx, f)
+                FS.inline_helpers = False
+                v = FS.resolve(v, FS.cfg.node(st))
+            if not (isinstance(v, ast.Call) and call_name(v).split(".")[-1] == "Rvectors"):
+                continue
+            r9.instance(f"{f.short}: {norm1(st, 70)}")
+            kv = next((k.value for k in v.keywords if k.arg == "shifts_left_red"), v.args[1] if len(v.args) > 1 else None)
+            r9.check(kv is not None and not (isinstance(kv, ast.Constant) and kv.value is None), "stored R-vectors are constructed with shifts_left_red", f, st,
+                     f"`{norm1(st, 80)}` keeps an Rvectors object built without the Wannier centres on the system: both shifts are the zero placeholder "
+                     f"unless every later step replaces both of them")
 
 
 def check_reader_writer_parameters(ctx) -> None:
@@ -867,6 +1007,15 @@ def wpm_stmt(pm, n):
 from ..selftest import V  # noqa: E402
 
 SELFTEST = [
+    V("hr header written in N // 15 + 1 chunks (seeded C18-m5)", HR, "    for i in range(0, system.rvec.nRvec, 15):\n        a = Ndegen[i:min(i + 15, system.rvec.nRvec)]",
+      "    for i in range(system.rvec.nRvec // 15 + 1):\n        a = Ndegen[15 * i:15 * (i + 1)]", "fire", "R18.8"),
+    V("tb header chunks by ceil division", TB, "    for i in range(0, system.rvec.nRvec, 15):\n        a = Ndegen[i:min(i + 15, system.rvec.nRvec)]",
+      "    for i in range((system.rvec.nRvec + 14) // 15):\n        a = Ndegen[15 * i:15 * (i + 1)]", "silent", "R18.8"),
+    V("tb header chunks drop the remainder", TB, "    for i in range(0, system.rvec.nRvec, 15):\n        a = Ndegen[i:min(i + 15, system.rvec.nRvec)]",
+      "    for i in range(system.rvec.nRvec // 15):\n        a = Ndegen[15 * i:15 * (i + 1)]", "fire", "R18.8"),
+    V("tb reader keeps shift-less R-vectors and patches the left shifts only (seeded C18-m6)", TB,
+      "    system.rvec = Rvectors(\n        lattice=system.real_lattice,\n        iRvec=iRvec,\n        shifts_left_red=system.wannier_centers_red,\n    )\n",
+      "    system.rvec = Rvectors(lattice=system.real_lattice, iRvec=iRvec)\n    system.rvec.shifts_left_red = system.wannier_centers_red\n", "fire", "R18.9"),
     V("reader splits at n//2 (original defect: odd n)", HR,
       "    nup = (data.shape[0] + 1) // 2\n    data_2[::2] = data[:nup]\n    data_2[1::2] = data[nup:]\n",
       "    data_2[::2] = data[:data.shape[0] // 2]\n    data_2[1::2] = data[data.shape[0] // 2:]\n", "fire", "R18.1"),
